@@ -148,8 +148,11 @@ def run_output_sxr(key):
     Ks, Kt, kind, T, seed = key['Ks'], key['Kt'], key['kind'], key['T'], key['seed']
     img = signals(seed, kind, (Ks, Kt, T), 'img')
     # estimated outputs: a permuted, leaky mixing of the sources (competition between outputs)
-    img = img * (0.3 + np.eye(Ks, Kt)[:, :, None] * 2) if kind == 'generic' else img
-    noise = signals(seed, kind, (Kt, T), 'noise') * 0.3
+    if kind == 'clean':
+        img = signals(seed, 'generic', (Ks, Kt, T), 'img') * (2e-3 + np.eye(Ks, Kt)[:, :, None] * 2)
+    else:
+        img = img * (0.3 + np.eye(Ks, Kt)[:, :, None] * 2) if kind == 'generic' else img
+    noise = signals(seed, 'generic' if kind == 'clean' else kind, (Kt, T), 'noise') * (0.3 if kind != 'clean' else 3e-3)
     if kind == 'integer':
         noise = signals(seed, kind, (Kt, T), 'noise')
     img.setflags(write=False)
@@ -217,8 +220,10 @@ def run_output_sxr(key):
 def run_input_sxr(key):
     _, sx = _ev()
     K, D, kind, T, seed = key['K'], key['D'], key['kind'], key['T'], key['seed']
-    img = signals(seed, kind, (K, D, T), 'in-img') * (1 + np.arange(K))[:, None, None]
-    noise = signals(seed, kind, (D, T), 'in-noise') * 0.5
+    img = signals(seed, kind if kind != 'clean' else 'generic', (K, D, T), 'in-img') * (1 + np.arange(K))[:, None, None]
+    if kind == 'clean':
+        img[1:] *= 2e-3                               # one dominant source: SIR ~ 55 dB
+    noise = signals(seed, kind if kind != 'clean' else 'generic', (D, T), 'in-noise') * (0.5 if kind != 'clean' else 3e-3)
     if kind == 'integer':
         noise = signals(seed, kind, (D, T), 'in-noise')
         if not noise.any():
@@ -325,7 +330,7 @@ def subchecks(tier, seed):
             for Kt in (1, 2, 3, 4, 5):
                 if Kt < Ks:
                     continue
-                for kind in ('integer', 'generic'):
+                for kind in ('integer', 'generic', 'clean'):
                     for T in (8, 64) + ((4096,) if thorough else ()):
                         for v in range(3 if not thorough else 6):
                             yield (Ks, Kt, kind, T, seed * 100 + v)
@@ -335,7 +340,7 @@ def subchecks(tier, seed):
     def in_cases():
         for K in (1, 2, 3, 4):
             for D in (1, 2, 3, 5):
-                for kind in ('integer', 'generic'):
+                for kind in ('integer', 'generic', 'clean'):
                     for T in (8, 64):
                         yield (K, D, kind, T, seed)
     subs.append(Sub('input_sxr', ('K', 'D', 'kind', 'T', 'seed'), in_cases, run_input_sxr))
